@@ -176,6 +176,8 @@ pub struct WorkerResult {
     pub other_property_viols: BTreeMap<String, u64>,
     /// (part, key, msg, replay value)
     pub violations: Vec<(String, String, String, Value)>,
+    #[serde(default)]
+    pub infra: Vec<String>,
     pub completed: bool,
 }
 
@@ -212,6 +214,12 @@ impl<'a> Acc<'a> {
         }
         let mut first = None;
         for v in &out.viols {
+            if v.prop == "INFRA" {
+                if self.res.infra.len() < 5 {
+                    self.res.infra.push(v.msg.clone());
+                }
+                continue;
+            }
             if v.prop != self.id {
                 *self.res.other_property_viols.entry(format!("{}:{}", v.prop, v.key)).or_default() += 1;
                 continue;
@@ -529,6 +537,9 @@ pub fn orchestrate(check: &mut dyn Check, tier: Tier, seed: u64) -> i32 {
                     merged.samples.extend(wr.samples.into_iter().take(1));
                 }
                 violations.extend(wr.violations);
+                for m in wr.infra {
+                    inconclusive.push(format!("worker {}: {}", idx, m));
+                }
             }
             (None, _) => inconclusive.push(format!("worker {} exceeded the watchdog ({} s)", idx, limit.as_secs())),
             (Some(st), _) => {
